@@ -11,6 +11,7 @@ def main(tier, seed):
     names = TREES if tier == "quick" else [n for n in scen.catalogue() if "block" not in n and "par" not in n and n != "no_ids"]   # no_ids: generated ids, nothing to compare the declaration with
     jobs = [("props.models", "tree", ("C20", n)) for n in names]
     jobs.append(("props.models", "deploy", ("C20",)))
+    jobs.append(("props.models", "roundtrip", ("C20",)))
     jobs.append(("props.models", "timeout_limit", ("C20",)))
     c.run_jobs(jobs)
     if tier != "quick":
@@ -21,5 +22,6 @@ def main(tier, seed):
              "0..2 `on` entries, 1..3 deploys, with/without duplicate ids. TimeoutLimit::as_secs for a symbolic value (validity query) and Display/parse on boundary values",
         assumptions=[a for a in ASSUME if "QuickJS" not in a] + [
             "NOT COVERED: 'a workflow written to YAML or JSON and parsed back is identical' -- the text codecs (serde_yaml / serde_json and the derive-generated visitors) are outside "
-            "what this technique can encode here; the stored model text is modelled structurally, so only the field lists of the model types take part"],
+            "what this technique can encode here; the text is modelled structurally: the field lists of the model types and their serde field attributes (default, skip*, rename, alias) as "
+            "read from the source take part (a model with every field non-default must come back unchanged from to_yml/from_yml and to_json/from_json), the byte-level syntax does not"],
         bounds=dict(skeletons=names, collisions="<= 6 node pairs per skeleton", deploys="1..3", on_entries="0..2", timeout_value="0..1e9"))
